@@ -310,6 +310,15 @@ func main() {
 			default:
 				inner, compName = scripted{tag: "top", seed: r.U64(), tsMod: r.Intn(3), fixed: -1}, "scripted"
 			}
+			if comp >= 3 && comp <= 5 && r.Chance(1, 3) {
+				// the same sampler nested: the root of a default ParentBased is itself a ParentBased with unusual
+				// delegates. The outer one has no options, so children still get their parent's decision; the
+				// inner delegates only ever see roots (for which they defer to the same root sampler)
+				root := []sdktrace.Sampler{sdktrace.AlwaysSample(), sdktrace.TraceIDRatioBased(0.5), sdktrace.NeverSample()}[comp-3]
+				inner = sdktrace.ParentBased(sdktrace.ParentBased(root, sdktrace.WithLocalParentNotSampled(sdktrace.AlwaysSample()), sdktrace.WithRemoteParentNotSampled(sdktrace.AlwaysSample()),
+					sdktrace.WithLocalParentSampled(sdktrace.NeverSample()), sdktrace.WithRemoteParentSampled(sdktrace.NeverSample())))
+				compName += " nested"
+			}
 			rs := &recordingSampler{inner: inner}
 			proc := &recProcessor{ended: map[trace.SpanID]int{}}
 			e1 := &recExporter{spans: map[trace.SpanID]int{}}
@@ -538,7 +547,11 @@ func main() {
 
 		// ---------------- concurrent id generation across providers ----------------
 		c.Cases("concurrent-ids", c.N(40, 100), 4, func(k *vf.Case) {
-			tps := []*sdktrace.TracerProvider{sdktrace.NewTracerProvider(), sdktrace.NewTracerProvider()}
+			// every span is sampled (the default sampler on roots) and goes through a simple (synchronous)
+			// span processor in front of a counting exporter: it reaches the exporter exactly once although
+			// many goroutines end spans at the same time
+			exps := []*countingExp{{ids: map[trace.SpanID]int{}}, {ids: map[trace.SpanID]int{}}}
+			tps := []*sdktrace.TracerProvider{sdktrace.NewTracerProvider(sdktrace.WithSyncer(exps[0])), sdktrace.NewTracerProvider(sdktrace.WithSyncer(exps[1]))}
 			nPer := k.C.N(400, 2000)
 			var wg sync.WaitGroup
 			var dups, bad int64
@@ -569,6 +582,20 @@ func main() {
 				}(g)
 			}
 			wg.Wait()
+			exported, twice := 0, 0
+			for _, e := range exps {
+				e.mu.Lock()
+				for _, n := range e.ids {
+					exported++
+					if n > 1 {
+						twice++
+					}
+				}
+				e.mu.Unlock()
+			}
+			if exported != 16*nPer*2 || twice > 0 {
+				k.Violate("span-missing-at-simple-exporter", "concurrent ends", fmt.Sprintf("%d of %d sampled spans reached the exporter behind the simple span processor (%d of them more than once)", exported, 16*nPer*2, twice), nil)
+			}
 			if dups > 0 {
 				k.Violate("span-id-not-unique", "concurrent / across providers", fmt.Sprintf("%d duplicate span ids", dups), nil)
 			}
@@ -590,6 +617,21 @@ func main() {
 		c.Floor("decision_2", 1000)
 	})
 }
+
+type countingExp struct {
+	mu  sync.Mutex
+	ids map[trace.SpanID]int
+}
+
+func (e *countingExp) ExportSpans(_ context.Context, ss []sdktrace.ReadOnlySpan) error {
+	e.mu.Lock()
+	for _, s := range ss {
+		e.ids[s.SpanContext().SpanID()]++
+	}
+	e.mu.Unlock()
+	return nil
+}
+func (e *countingExp) Shutdown(context.Context) error { return nil }
 
 type scriptGen struct {
 	mu           sync.Mutex
